@@ -125,8 +125,18 @@ pub fn run_c17(args: &Args) -> Report {
                             }
                             let mut c = Command::new(&bin);
                             c.current_dir(&runner.dir).env_remove("TXTPP_FILE").env("VERIF_ARGV", &argv_log).arg("-q");
-                            if !shell_cmd.is_empty() {
-                                c.arg("-s").arg(&shell_cmd);
+                            // every other time the shell is given relative to the directory txtpp is started in:
+                            // it must still be that file when the command runs in the (deeper) directory of the source
+                            let mut shell_cli = shell_cmd.clone();
+                            if shell == "wrapper" && case_no % 2 == 0 {
+                                let rel = runner.dir.join("argvsh-rel");
+                                let _ = std::fs::copy(&wrapper, &rel);
+                                let _ = std::fs::set_permissions(&rel, std::fs::Permissions::from_mode(0o755));
+                                shell_cli = "./argvsh-rel -c".to_string();
+                                rep.count("cli-shell-relative-path");
+                            }
+                            if !shell_cli.is_empty() {
+                                c.arg("-s").arg(&shell_cli);
                             }
                             c.arg(&src);
                             let o = c.output().expect("cli");
